@@ -28,6 +28,8 @@ mod fetch;
 mod handshake;
 pub mod loadtest;
 mod runner;
+#[cfg(era_consensus_verif)]
+pub(crate) use runner::verif_push_validator_addrs;
 #[cfg(test)]
 mod testonly;
 #[cfg(test)]
